@@ -499,7 +499,7 @@ def strip_context(src, r):
 
 def order_universe(size=200):
     scal = [None, False, True, 0, 1, -1, 2, 10, -10, 100, 2 ** 31, 2 ** 53 - 1, 2 ** 53, 2 ** 53 + 1, -(2 ** 53) - 1, 2 ** 63 - 1, 2 ** 63, -(2 ** 63), -(2 ** 63) - 1,
-            2 ** 64 + 1, -(2 ** 70), 10 ** 30, 10 ** 30 + 1, 0.5, -0.5, 1.5, 2.25, -2.75, 0.125, 1023.5, 9.5, 10.5,
+            2 ** 64 + 1, -(2 ** 70), 10 ** 30, 10 ** 30 + 1, 0.5, -0.5, 1.5, 2.25, -2.75, 0.125, 1023.5, 9.5, 10.5, 10 ** 400, -(10 ** 400), 10 ** 309, -(10 ** 309) - 1,
             "", "a", "A", "ab", "b", "aa", "é", "日本", "\u0000", "a\u0000", "~", " ", "10", "9", "\U0001F600", "é", "z"]
     arrs = [[], [None], [[]], [1], [1, 2], [2, 1], [1, [2]], ["a"], [[], []], [{}], [1, 1], [1.5], [False], [True, None], [0], [[1]], [[1], 0], [1, 2, 3], [1, 2, 2], ["a", 1],
             [None, None], [2 ** 64 + 1], [[[]]], [{"a": 1}], [{"a": 1}, 2], ["", ""], [0.5, 1]]
